@@ -29,6 +29,7 @@ type dictPair struct {
 	keyKind string
 	mkKey   func() jen.Code
 	valNull bool
+	valQual bool
 	mkVal   func() jen.Code
 }
 
@@ -54,7 +55,7 @@ func dictKeyPool(r *rand.Rand, i int) (kind, text string, mk func() jen.Code) {
 		s := []string{"a", "ab", "a b", "", "z\"q", "ü", "a.b", "A"}[r.Intn(8)]
 		return "string", fmt.Sprintf("%q", s), func() jen.Code { return jen.Lit(s) }
 	case 2:
-		s := []string{"a", "ab", "aZ", "a1", "b", "B", "_", "abc", "x"}[r.Intn(9)]
+		s := []string{"a", "ab", "aZ", "a1", "b", "B", "_", "abc", "x", "x0", "x1", "x2", "y0"}[r.Intn(13)]
 		return "ident", s, id(s)
 	case 3:
 		return "selector", "a.b", func() jen.Code { return jen.Id("a").Dot("b") }
@@ -128,6 +129,11 @@ func genDict(r *rand.Rand) []dictPair {
 			seed := r.Int63()
 			ps[i].valNull = true
 			ps[i].mkVal = func() jen.Code { return nullCode(rand.New(rand.NewSource(seed))) }
+		} else if r.Intn(5) == 0 {
+			// the value is a qualified identifier (its package may compete with a key's package for an alias)
+			p := []string{"a.b/x", "c.d/x", "e.f/x", "g.h/y", "i.j/y"}[r.Intn(5)]
+			ps[i].valQual = true
+			ps[i].mkVal = func() jen.Code { return jen.Qual(p, fmt.Sprintf("val_%d", i)) }
 		} else {
 			ps[i].mkVal = func() jen.Code { return jen.Id(fmt.Sprintf("val_%d", i)) }
 		}
@@ -239,7 +245,11 @@ func observeDict(src []byte) (*dictObs, string) {
 		})
 		o.keys = append(o.keys, oracle.Canon(kv.Key))
 		var vb bytes.Buffer
-		printer.Fprint(&vb, fset, kv.Value)
+		if se, ok := kv.Value.(*ast.SelectorExpr); ok && strings.HasPrefix(se.Sel.Name, "val_") {
+			vb.WriteString(se.Sel.Name) // a qualified marker: the marker is what identifies the pair
+		} else {
+			printer.Fprint(&vb, fset, kv.Value)
+		}
 		o.vals = append(o.vals, vb.String())
 		o.raw = append(o.raw, string(src[fset.Position(kv.Key.Pos()).Offset:fset.Position(kv.Colon).Offset]))
 		o.lines = append(o.lines, fset.Position(kv.Pos()).Line)
@@ -406,7 +416,15 @@ func c16Case(r *mon.Run, idx int64) {
 	}
 	// two-phase: one key statement is extended in place after a first render with a File; the second render
 	// with the same File must equal a fresh build of the changed Dict
-	if ok && idx%5 == 0 && len(ps) >= 2 {
+	usesPackages := false
+	for _, p := range ps {
+		if p.valQual || strings.Contains(p.keyKind, "qual") {
+			// with package references the second render legitimately keeps the aliases chosen by the first one
+			// (C08), which a fresh build would hand out in another order
+			usesPackages = true
+		}
+	}
+	if ok && idx%5 == 0 && len(ps) >= 2 && !usesPackages {
 		keys := make([]*jen.Statement, len(ps))
 		mk := func(extend bool) (jen.Dict, *jen.Statement) {
 			d := jen.Dict{}
@@ -459,15 +477,75 @@ func c16Case(r *mon.Run, idx int64) {
 	}
 }
 
+// c16IntCase: Dicts of small integer keys and values (no unique markers): the rendered pairs, read as
+// (key, value) numbers, must be exactly the multiset that was put in, in key-text order.
+func c16IntCase(r *mon.Run, idx int64) {
+	rnd := r.Rand("C16/int", idx)
+	c := mon.Case{Gen: "int-dict", Seed: r.Seed, Index: idx}
+	n := 2 + rnd.Intn(6)
+	type kv struct{ k, v int }
+	seen := map[int]bool{}
+	var pairs []kv
+	digits := []int{1, 11, 111, 2, 12, 21, 112, 121, 211, 0, 10, 100}
+	for len(pairs) < n {
+		k := digits[rnd.Intn(len(digits))]
+		if seen[k] {
+			continue
+		}
+		seen[k] = true
+		pairs = append(pairs, kv{k, digits[rnd.Intn(len(digits))]})
+	}
+	d := jen.Dict{}
+	for _, p := range pairs {
+		d[jen.Lit(p.k)] = jen.Lit(p.v)
+	}
+	f := jen.NewFile("p")
+	f.Var().Id("X").Op("=").Id("M").Values(d)
+	src, fail := renderFile(f)
+	desc := fmt.Sprintf("Dict%v", pairs)
+	if fail != "" {
+		r.Violate("dict-render-failure", c, "%s: %s", desc, fail)
+		return
+	}
+	o, e := observeDict(src)
+	if e != "" {
+		r.Violate("dict-pairs", c, "%s: %s", desc, e)
+		return
+	}
+	got := map[string]int{}
+	for i := range o.keys {
+		got[strings.TrimSpace(o.raw[i])+":"+o.vals[i]]++
+	}
+	for _, p := range pairs {
+		key := fmt.Sprintf("%d:%d", p.k, p.v)
+		if got[key] != 1 {
+			r.Violate("dict-pairs", c, "%s: pair %s rendered %d times\noutput:\n%s", desc, key, got[key], src)
+		}
+		delete(got, key)
+	}
+	for k := range got {
+		r.Violate("dict-pairs", c, "%s: unexpected pair %s\noutput:\n%s", desc, k, src)
+	}
+	r.Eval(desc, true)
+	r.Count("int_dicts", 1)
+}
+
 func runC16(r *mon.Run) {
 	r.SetRule("random Dicts of 0-40 pairs; keys from literals, identifiers (incl. prefix-related a/ab/a.b/a[0]/aZ), calls, qualified identifiers, composite and binary expressions, forced render-identical duplicates, null keys/values (Null(), Add(), List(), typed nil, Tag(nil)); every value is a unique marker; rendered formatted, NoFormat and via DictFunc; non-trivial = >=2 pairs with both sides non-null; distinct by Dict text")
 	r.Assume("'ordered by the rendered text of their keys' admits both the text as written and the text after gofmt; nil interface keys/values are API misuse and not generated")
 	c16NegControls(r)
 	n := r.Pick(12000, 1500000)
 	mon.Parallel(n, func(i int) { c16Case(r, int64(i)) })
+	mon.Parallel(r.Pick(3000, 100000), func(i int) { c16IntCase(r, int64(i)) })
 }
 
-func replayC16(r *mon.Run, c mon.Case) { c16Case(r, c.Index) }
+func replayC16(r *mon.Run, c mon.Case) {
+	if c.Gen == "int-dict" {
+		c16IntCase(r, c.Index)
+		return
+	}
+	c16Case(r, c.Index)
+}
 
 func c16NegControls(r *mon.Run) {
 	ps := []dictPair{
